@@ -169,6 +169,15 @@ func (en *Engine) doCopy(st *State, dstV, srcV Value, pos string) Value {
 	if dst.R == nil {
 		return ConstI(0)
 	}
+	// lengths fixed by the path condition are used as constants
+	if iv := st.bounds.Interval(srcLen); srcLen.op != OConst && iv.lo != nil && iv.hi != nil && iv.lo.Cmp(iv.hi) == 0 {
+		st.addSide(Eq(srcLen, Const(iv.lo)), "length fixed by the path condition")
+		srcLen = Const(iv.lo)
+	}
+	if iv := st.bounds.Interval(dst.Len); dst.Len.op != OConst && iv.lo != nil && iv.hi != nil && iv.lo.Cmp(iv.hi) == 0 {
+		st.addSide(Eq(dst.Len, Const(iv.lo)), "length fixed by the path condition")
+		dst.Len = Const(iv.lo)
+	}
 	// n = min(len(dst), len(src))
 	dl, ok1 := dst.Len.ConstInt()
 	sl, ok2 := srcLen.ConstInt()
